@@ -137,6 +137,8 @@ def usable_ops(ops, backend, keyset, valset=None):
             continue
         if o['op'] in ('eqx', 'xeq') and backend.endswith('+cache'):
             continue
+        if o['op'] == 'values' and valset == 'nonev':
+            continue          # (a bare None in values() cannot be attributed to a key)
         if o['op'] in ('eq', 'ne', 'eqx', 'xeq') and valset == 'func':
             continue          # functions compare by identity: two archives holding "the same" function are not ==
         out.append(o)
